@@ -12,6 +12,7 @@ from ..abseval import AbsEval, State, const, TOP, TRUE, FALSE, NONE, truth, fmt,
 from .entries import public_entries, entry_model, is_eval_method_name
 
 SOL = ("obj", "Sol")
+EXIT_FLAGS: Dict[int, Set] = {}       # truth flag left behind when a solution is returned, per solution count (filled by the_outcomes)
 
 
 def the_outcomes(db: ProgramDB):
@@ -50,6 +51,7 @@ def the_outcomes(db: ProgramDB):
     if len(sol_loops) != 1:
         raise AnalysisError(f"{callee.qualname}: expected one loop over the child's solutions, found {len(sol_loops)}")
     loop = sol_loops[0]
+    EXIT_FLAGS.clear()
     results = {}
     # the flag an evaluation leaves behind is the flag the next one starts with - whatever number of solutions the next one
     # finds (the data may have changed, or the quantifier is nested and evaluated once per binding of the enclosing query):
@@ -103,6 +105,8 @@ def the_outcomes(db: ProgramDB):
                         for v in vals:
                             nn = is_none(v)
                             outcomes.add(("returns", "a solution" if v == SOL else ("None" if nn else fmt(v))))
+                            if v == SOL:
+                                EXIT_FLAGS.setdefault(N, set()).add(ev.transfer(n, st).get("self._is_false_"))
                         entry_flags.add(ev.transfer(n, st).get("self._is_false_"))
                     elif n.kind == "raise_stmt":
                         exc = n.ast.exc
@@ -137,6 +141,15 @@ def rule_the_outcome(db: ProgramDB) -> List[Instance]:
         out.append(inst("THE-OUTCOME", HOLDS if ok else VIOLATION, callee, f"{callee.short}[solutions={'>=2' if N == 2 else N}]",
                         f"{label[N]}: reachable outcomes {sorted(outcomes)} (entry _is_false_ in {flags})" +
                         ("" if ok else f"; required exactly {sorted(EXPECTED[N])}")))
+    # the truth the quantifier reports for the solution it returns: a nested `the` is a condition of the enclosing query, and its
+    # parent reads the flag - 'found' must not be reported as false because an earlier binding found nothing
+    flags = EXIT_FLAGS.get(1, set())
+    ok = bool(flags) and all(f == FALSE for f in flags)
+    out.append(inst("THE-OUTCOME", HOLDS if ok else VIOLATION, callee, f"{callee.short}[solutions=1: truth on exit]",
+                    "a returned solution leaves _is_false_ = False whatever the flag was on entry" if ok else
+                    f"when exactly one solution is found the truth flag on exit is in {sorted(fmt(f) for f in flags)}: a nested `the` that found nothing for an "
+                    f"earlier binding of the enclosing query keeps reporting 'false' after it finds its unique solution for a later one, and an enclosing or_ "
+                    f"drops that row"))
     return out
 
 
